@@ -43,6 +43,7 @@ class Obs:
         self.sends = []          # dict per send attempt
         self.flushes = []        # (t_call, t_return, pending ids at call)
         self.stop = None         # dict
+        self.stop_raised = None  # (type, repr) when producer.stop() raised
         self.start_error = None
         self.deadlock = None
         self.notes = []
@@ -144,7 +145,13 @@ async def _main(case, obs, loop, net):
         stopped["called"] = True
         pend = pending_ids()
         t0 = loop._vtime
-        await producer.stop()
+        try:
+            await producer.stop()
+        except asyncio.CancelledError:
+            raise
+        except Exception as e:
+            # stop() is not supposed to raise: recorded and judged by the property modules (never a harness error)
+            obs.stop_raised = (type(e).__name__, repr(e)[:300])
         obs.stop = {"t_call": t0, "t_return": loop._vtime, "pending_at_call": pend, "tag": tag,
                     "undone_at_return": [s["id"] for s in obs.sends
                                          if s.get("accepted") and s.get("t_accept", 1e18) <= t0
